@@ -286,7 +286,13 @@ fn run_case(case: &Value, variation: u64, vbp: &Path, scratch: &Path) -> Vec<Pro
     if c("exe") == "detect" && plan_path.parent().unwrap().is_dir() {
         let text = fs::read_to_string(&plan_path).unwrap_or_default();
         if out["planwritten"] == true {
-            let ok = text.parse::<toml::Table>().ok().is_some_and(|t| t.get("provides").and_then(|p| p.as_array()).is_some_and(|a| a.len() == 1));
+            // (the scripted plan: provides vbp, second, vbp, third; requires vbp with metadata; or: provides other)
+            let names = |v: Option<&toml::Value>| -> Vec<String> { v.and_then(|p| p.as_array()).map(|a| a.iter().map(|x| x.get("name").and_then(|n| n.as_str()).unwrap_or("?").to_string()).collect()).unwrap_or_default() };
+            let ok = text.parse::<toml::Table>().ok().is_some_and(|t| {
+                names(t.get("provides")) == ["vbp", "second", "vbp", "third"] && names(t.get("requires")) == ["vbp"]
+                    && t.get("requires").and_then(|r| r.get(0)).and_then(|r| r.get("metadata")).and_then(|m| m.as_table()).is_some_and(|m| m.len() == 5 && m.get("mike").and_then(|x| x.as_table()).is_some_and(|x| x.len() == 4))
+                    && t.get("or").and_then(|o| o.as_array()).is_some_and(|o| o.len() == 1 && names(o[0].get("provides")) == ["other"])
+            });
             if !ok { p5(format!("build plan was not written as provided: {text:?}")); }
         } else if text != plan_sentinel {
             p5(format!("build plan file was modified although no plan was to be written: {text:?}"));
